@@ -28,6 +28,8 @@ type Reader struct {
 
 	r         io.ByteReader
 	err       error  // Last read error, if any
+	atEOF     bool   // the source is exhausted; zero bits are supplied instead
+	padBits   int    // number of buffered bits which are such padding
 	current   uint32 // up to 4 bytes of input, valid bits MSB-aligned
 	validBits int    // number of valid bits in current
 
@@ -369,8 +371,21 @@ func (r *Reader) peekBits(n int) uint32 {
 
 	for r.validBits < n {
 		var x byte
-		if r.err == nil { // after the first error, use an inifinite stream of zeros
-			x, r.err = r.r.ReadByte()
+		if r.err == nil && !r.atEOF { // after the first error, use an inifinite stream of zeros
+			var err error
+			x, err = r.r.ReadByte()
+			if err == io.EOF {
+				// Looking ahead past the end of the data is not an error;
+				// consuming bits which are not there is (see consumeBits).
+				r.atEOF = true
+				x = 0
+			} else if err != nil {
+				r.err = err
+				x = 0
+			}
+		}
+		if r.atEOF {
+			r.padBits += 8
 		}
 		r.current |= uint32(x) << (24 - r.validBits)
 		r.validBits += 8
@@ -384,6 +399,13 @@ func (r *Reader) consumeBits(n int) {
 	}
 	r.current <<= n
 	r.validBits -= n
+	if r.validBits < r.padBits {
+		// padding has been consumed: the data ends here
+		r.padBits = r.validBits
+		if r.err == nil {
+			r.err = io.EOF
+		}
+	}
 }
 
 func (r *Reader) readBits(n int) uint32 {
